@@ -254,12 +254,19 @@ def coq_eval(ctx, name, text, timeout=900):
     """write coq/run/<name>.v and compile it with unlimited stack; returns (ok, stdout)"""
     d = os.path.join(COQ, "run")
     os.makedirs(d, exist_ok=True)
+    shown = name
+    name = "%s_p%d" % (name, os.getpid())   # two runs of the same check at the same time must not share a case file
     p = os.path.join(d, name + ".v")
     open(p, "w").write(text)
     cmd = "ulimit -s unlimited 2>/dev/null; timeout %d coqc -Q . WH -w -notation-overridden run/%s.v" % (timeout, name)
     t = time.time()
     r = subprocess.run(["bash", "-c", cmd], cwd=COQ, capture_output=True, text=True)
-    ctx.say("coq eval %s rc=%d (%.1fs)" % (name, r.returncode, time.time() - t))
+    ctx.say("coq eval %s rc=%d (%.1fs)" % (shown, r.returncode, time.time() - t))
+    if r.returncode == 0:
+        try:
+            os.remove(p)       # kept only when the evaluation failed (for inspection)
+        except OSError:
+            pass
     for ext in (".vo", ".vok", ".vos", ".glob"):
         try:
             os.remove(os.path.join(d, name + ext))
